@@ -24,6 +24,8 @@ def run(prop, tier, seed):
     spec = plans.SCEN[prop]
     n = spec['n'][0 if tier == 'quick' else 1]
     plan = [(('random', spec['profile']), n, 64 if tier == 'quick' else 256)]
+    for prof, frac in spec.get('extra_profiles', []):
+        plan.append((('random', prof), int(n * frac), 32 if tier == 'quick' else 128))
     from . import exh
     plan += exh.plan_for(prop, tier)
     try:
